@@ -212,6 +212,11 @@ def _solve_case(arg):
                                         no_derivatives=no_der)
                     tol = 200 * BTOL * (1 + np.abs(exact))
                 got = np.asarray(sol(xs), dtype=float)
+                # the returned callable is a function of the point: the same values for the points in reversed order
+                # and for repeated points
+                odd = np.array([xs[6], xs[2], xs[2], xs[8], xs[0]])
+                got_rev = np.asarray(sol(xs[::-1].copy()), dtype=float)
+                got_odd = np.asarray(sol(odd), dtype=float)
             except ValueError as exc:
                 msg = str(exc)
                 if solver == "bvp" and tname in DECREASING and ("strictly increasing" in msg or "increasing" in msg):
@@ -233,6 +238,14 @@ def _solve_case(arg):
                 return res.as_dict()
     res.nontrivial()
     with_tf = tf is not None
+    g2 = got if got.ndim == 2 else got[None, :]
+    r2 = got_rev if got_rev.ndim == 2 else got_rev[None, :]
+    o2 = got_odd if got_odd.ndim == 2 else got_odd[None, :]
+    scale_o = 1e-9 * (1.0 + np.max(np.abs(g2)))
+    if r2.shape != g2.shape or _gt(np.max(np.abs(r2[:, ::-1] - g2)), scale_o) or o2.shape[1:] != (5,) \
+            or _gt(np.max(np.abs(o2 - g2[:, [6, 2, 2, 8, 0]])), scale_o):
+        res.violation(f"{tag}:callable-depends-on-point-order", f"{case}: the returned callable gives different values for the same points "
+                      f"in reversed order or with repetitions", case)
     if got.ndim == 1:
         got = got[None, :]
     rows_expected = 1 if (with_tf and no_der) else order
